@@ -284,6 +284,37 @@ func init() {
 		vrt + "And":     func(m *Machine, a []Val) Val { return And(a[0].(Bool), a[1].(Bool)) },
 		vrt + "Or":      func(m *Machine, a []Val) Val { return Or(a[0].(Bool), a[1].(Bool)) },
 		vrt + "Implies": func(m *Machine, a []Val) Val { return Or(Not(a[0].(Bool)), a[1].(Bool)) },
+		vrt + "UFBytes64": func(m *Machine, a []Val) Val {
+			name := a[0].(Str).C
+			s := a[1].(Str)
+			if s.IsB {
+				m.incon("UFBytes64 of byte-string")
+			}
+			key := "ufb:" + name
+			if _, ok := m.notes[key]; !ok {
+				m.ex.z.Send("(declare-fun " + name + " (String) (_ BitVec 64))")
+			}
+			prev, _ := m.notes[key].([]string)
+			t := s.T()
+			dup := false
+			for _, u := range prev {
+				if u == t {
+					dup = true
+					continue
+				}
+				m.ex.z.Send("(assert (=> (not (= " + t + " " + u + ")) (not (= (" + name + " " + t + ") (" + name + " " + u + ")))))")
+			}
+			if !dup {
+				prev = append(prev, t)
+			}
+			m.notes[key] = prev
+			h := m.ex.Name("h64", "(_ BitVec 64)", "("+name+" "+t+")")
+			ba := newByteArr(CI(64, 8))
+			for i := 0; i < 8; i++ {
+				m.baSto(ba, CI(64, uint64(i)), Int{W: 8, S: fmt.Sprintf("((_ extract %d %d) %s)", 8*i+7, 8*i, h)})
+			}
+			return Slice{B: ba, Off: CI(64, 0), Len: CI(64, 8), Cap: CI(64, 8)}
+		},
 		vrt + "Note": func(m *Machine, a []Val) Val { return nil },
 		vrt + "CheckAlloc": func(m *Machine, a []Val) Val { return nil },
 
@@ -542,6 +573,31 @@ func init() {
 				return CB(strings.Contains(s.C, p.C))
 			}
 			return Bool{S: "(str.contains " + s.T() + " " + p.T() + ")"}
+		},
+		"strings.Replace": func(m *Machine, a []Val) Val {
+			return Str{C: strings.Replace(concStr(m, a[0], "strings.Replace"), concStr(m, a[1], "strings.Replace"), concStr(m, a[2], "strings.Replace"), int(a[3].(Int).Signed()))}
+		},
+		"strings.ReplaceAll": func(m *Machine, a []Val) Val {
+			return Str{C: strings.ReplaceAll(concStr(m, a[0], "strings.ReplaceAll"), concStr(m, a[1], "strings.ReplaceAll"), concStr(m, a[2], "strings.ReplaceAll"))}
+		},
+		"strings.Index": func(m *Machine, a []Val) Val {
+			return CI(64, uint64(int64(strings.Index(concStr(m, a[0], "strings.Index"), concStr(m, a[1], "strings.Index")))))
+		},
+		"strings.LastIndex": func(m *Machine, a []Val) Val {
+			return CI(64, uint64(int64(strings.LastIndex(concStr(m, a[0], "strings.LastIndex"), concStr(m, a[1], "strings.LastIndex")))))
+		},
+		"strings.TrimPrefix": func(m *Machine, a []Val) Val {
+			return Str{C: strings.TrimPrefix(concStr(m, a[0], "strings.TrimPrefix"), concStr(m, a[1], "strings.TrimPrefix"))}
+		},
+		"strings.TrimSuffix": func(m *Machine, a []Val) Val {
+			return Str{C: strings.TrimSuffix(concStr(m, a[0], "strings.TrimSuffix"), concStr(m, a[1], "strings.TrimSuffix"))}
+		},
+		"strings.Split": func(m *Machine, a []Val) Val {
+			var out []Str
+			for _, x := range strings.Split(concStr(m, a[0], "strings.Split"), concStr(m, a[1], "strings.Split")) {
+				out = append(out, Str{C: x})
+			}
+			return m.mkStrSlice(out)
 		},
 		"strings.ToLower": func(m *Machine, a []Val) Val { return Str{C: strings.ToLower(concStr(m, a[0], "strings.ToLower"))} },
 		"strings.ToUpper": func(m *Machine, a []Val) Val { return Str{C: strings.ToUpper(concStr(m, a[0], "strings.ToUpper"))} },
